@@ -33,6 +33,12 @@ def stats_shapes():
     add('SELECT p.k, r.z FROM p JOIN q ON p.k = q.k JOIN r ON q.w = r.w JOIN p p2 ON p2.k = r.w', 'join-chain-4')
     add('SELECT k, d FROM p WHERE k IN (SELECT k FROM q WHERE w > 1)', 'semi-join')
     add('SELECT p.k, p.v FROM p JOIN q ON p.k = q.k WHERE EXISTS (SELECT 1 FROM r WHERE r.w = q.w)', 'semi-join-pushdown')
+    # a semi / anti join above an outer join, keyed on the NULL-supplying side: it may not move below the join
+    add('SELECT p.k, q.w FROM p LEFT JOIN q ON p.k = q.k WHERE q.w IN (SELECT w FROM r)', 'semi-above-left-join-nullable')
+    add('SELECT p.k, q.w FROM p LEFT JOIN q ON p.k = q.k WHERE EXISTS (SELECT 1 FROM r WHERE r.w = q.w)', 'semi-exists-above-left-join-nullable')
+    add('SELECT p.k, q.w FROM p LEFT JOIN q ON p.k = q.k WHERE NOT EXISTS (SELECT 1 FROM r WHERE r.w = q.w)', 'anti-above-left-join-nullable')
+    add('SELECT p.k, q.w FROM q RIGHT JOIN p ON p.k = q.k WHERE q.w IN (SELECT w FROM r)', 'semi-above-right-join-nullable')
+    add('SELECT p.k, q.w FROM p LEFT JOIN q ON p.k = q.k WHERE p.d IN (SELECT w FROM r)', 'semi-above-left-join-preserved')
     add('SELECT p.k, p.v FROM p LEFT JOIN q ON p.k = q.k WHERE q.w IS NULL', 'left-join-where-null')
     add('SELECT p.k, q.w FROM p LEFT JOIN q ON p.k = q.k WHERE p.d = 1', 'left-join-where-left')
     add('SELECT p.k, q.w FROM p LEFT JOIN q ON p.k = q.k AND q.w = 2', 'left-join-on-right-pred')
@@ -95,7 +101,7 @@ def run(rep):
                                    # (the unsound uniqueness inference from min/max is C04's / C18's listed finding)
                                    [[10 + i, (k % 3) + 1, F(['1.0', '2.5', '2.5', '4.0'][i % 4])] for i, k in enumerate(km) if k is not None]
                                    + [[20, 1, F('1.0')], [21, 2, F('2.5')], [22, 2, F('0.5')], [23, 3, F('4.0')]], **kw)]}
-            units.append({'db': db, 'stmts': sh, 'known_unopt': {'id': 'unoptimized_in_subquery_same_name_capture', 'patterns': ['k IN (SELECT k FROM q']}})
+            units.append({'db': db, 'stmts': sh})
     # Part C: two-column integer keys whose four columns have DIFFERENT names and different ranges (statistics looked up per column, nothing widened across
     # the tables): the packing radix must cover the larger side whichever side it is on
     vdom = [0, 1, 2, 5]
